@@ -783,3 +783,6 @@ def run_case(r, obs):
         check_identity(obs, flow)
     else:
         raise ValueError(k)
+
+
+RULE += (' Every run-driven Split object is run a second time on a fresh copy of the flow and compared with the schedule model on the same (stateful) twin branches.')
